@@ -997,6 +997,20 @@ func producerOrder(p *load.Prog, r *oblig.Run, rule string) {
 		for _, an := range fn.AnonFuncs {
 			summarize(an, s, depth+1)
 		}
+		// helpers of the library the producer hands its work to (sendPointerJob(...))
+		for _, c := range su.Calls(fn) {
+			if cal := c.Common().StaticCallee(); cal != nil && cal != fn && pkgPathOf(cal) == load.PkgRoot && len(cal.Blocks) > 0 && cal.Signature.Recv() == nil {
+				takesOptions := false
+				for _, a := range c.Common().Args {
+					if n := load.NamedOf(a.Type()); n != nil && n.Obj().Name() == "IndividualNodesCompareOptions" {
+						takesOptions = true
+					}
+				}
+				if takesOptions {
+					summarize(cal, s, depth+1)
+				}
+			}
+		}
 	}
 	type prod struct {
 		call *ssa.Call
